@@ -468,3 +468,146 @@ func (p *Program) everWritten(key string) bool {
 	}
 	return p.allWritten[key]
 }
+
+// ---------------------------------------------------------------------------
+// read sets: heap keys a function may read (used as the arguments of the
+// uninterpreted function that stands for a pure function's result)
+
+func collectReads(info *types.Info, n ast.Node, keys map[string]bool, reg *Registry) {
+	ast.Inspect(n, func(x ast.Node) bool {
+		switch e := x.(type) {
+		case *ast.SelectorExpr:
+			sel, ok := info.Selections[e]
+			if !ok || sel.Kind() != types.FieldVal {
+				return true
+			}
+			curT := typeOf(info, e.X)
+			for _, idx := range sel.Index() {
+				owner := curT
+				isPtr := false
+				if p, ok := types.Unalias(curT).Underlying().(*types.Pointer); ok {
+					isPtr = true
+					owner = p.Elem()
+				}
+				stt, ok := owner.Underlying().(*types.Struct)
+				if !ok {
+					return true
+				}
+				f := stt.Field(idx)
+				if isPtr {
+					keys[fieldHeapKey(owner, f.Name())] = true
+				}
+				curT = f.Type()
+			}
+		case *ast.IndexExpr:
+			if mt, ok := typeOf(info, e.X).Underlying().(*types.Map); ok {
+				ks, vs := reg.sortOf(mt.Key()), reg.sortOf(mt.Elem())
+				keys["MD:"+ks] = true
+				keys["MV:"+ks+"|"+vs] = true
+			}
+		case *ast.RangeStmt:
+			if mt, ok := typeOf(info, e.X).Underlying().(*types.Map); ok {
+				ks, vs := reg.sortOf(mt.Key()), reg.sortOf(mt.Elem())
+				keys["MD:"+ks] = true
+				keys["MV:"+ks+"|"+vs] = true
+			}
+		case *ast.StarExpr:
+			if tv, ok := info.Types[e]; ok && !tv.IsType() {
+				if pt, ok := typeOf(info, e.X).Underlying().(*types.Pointer); ok {
+					derefKeys(pt.Elem(), keys, reg)
+				}
+			}
+		case *ast.CallExpr:
+			if id, ok := ast.Unparen(e.Fun).(*ast.Ident); ok {
+				if b, ok := info.Uses[id].(*types.Builtin); ok && b.Name() == "len" && len(e.Args) == 1 {
+					if mt, ok := typeOf(info, e.Args[0]).Underlying().(*types.Map); ok {
+						keys["MD:"+reg.sortOf(mt.Key())] = true
+					}
+				}
+			}
+		case *ast.Ident:
+			if v, ok := info.Uses[e].(*types.Var); ok && v.Pkg() != nil && v.Parent() == v.Pkg().Scope() {
+				keys["G:"+shortPkg(v.Pkg().Path())+"."+v.Name()] = true
+			}
+		}
+		return true
+	})
+}
+
+func (p *Program) computeReadSets() {
+	p.ReadSets = map[*types.Func]map[string]bool{}
+	callees := map[*types.Func][]*types.Func{}
+	unknownCall := map[*types.Func]bool{}
+	for _, fi := range p.Funcs {
+		if fi.Obj == nil {
+			continue
+		}
+		keys := map[string]bool{}
+		info := fi.Pkg.TypesInfo
+		collectReads(info, fi.Decl.Body, keys, modsetReg)
+		p.ReadSets[fi.Obj] = keys
+		ast.Inspect(fi.Decl.Body, func(n ast.Node) bool {
+			if ce, ok := n.(*ast.CallExpr); ok {
+				if c := calleeOf(info, ce); c != nil {
+					callees[fi.Obj] = append(callees[fi.Obj], c.Origin())
+				} else if tv, ok := info.Types[ce.Fun]; ok && !tv.IsType() {
+					if id, ok := ast.Unparen(ce.Fun).(*ast.Ident); ok {
+						if _, isB := info.Uses[id].(*types.Builtin); isB {
+							return true
+						}
+					}
+					unknownCall[fi.Obj] = true
+				}
+			}
+			return true
+		})
+	}
+	// interface methods: union over implementations (same as for modsets)
+	changed := true
+	for changed {
+		changed = false
+		for f, cs := range callees {
+			for _, c := range cs {
+				src := p.ReadSets[c]
+				if src == nil {
+					// interface method of the module: union of implementations
+					for impl, ms := range p.ReadSets {
+						if impl.Name() == c.Name() && impl != c {
+							if sig, ok := c.Type().(*types.Signature); ok && sig.Recv() != nil && isInterface(sig.Recv().Type()) {
+								for k := range ms {
+									if !p.ReadSets[f][k] {
+										p.ReadSets[f][k] = true
+										changed = true
+									}
+								}
+							}
+						}
+					}
+					continue
+				}
+				for k := range src {
+					if !p.ReadSets[f][k] {
+						p.ReadSets[f][k] = true
+						changed = true
+					}
+				}
+			}
+		}
+	}
+	for f := range unknownCall {
+		p.ReadSets[f]["!unknown"] = true
+	}
+	// propagate the unknown marker
+	changed = true
+	for changed {
+		changed = false
+		for f, cs := range callees {
+			for _, c := range cs {
+				if p.ReadSets[c]["!unknown"] && !p.ReadSets[f]["!unknown"] {
+					p.ReadSets[f]["!unknown"] = true
+					changed = true
+				}
+			}
+		}
+	}
+}
